@@ -167,6 +167,8 @@ func storeErr(err error) string {
 		return "prefix"
 	case strings.Contains(err.Error(), "unable to relocate storage"):
 		return "rename"
+	case strings.HasPrefix(err.Error(), "remove ") && errors.Is(err, os.ErrNotExist):
+		return "temp-gone"
 	}
 	return "other:" + err.Error()
 }
